@@ -124,6 +124,7 @@ type stored struct {
 	damaged bool
 	damage  string
 	sigType int
+	cookie  []byte // the cookie the publisher encrypted with; the client uses the same
 }
 
 // keyring holds the clients' key pairs for the length of one run: a client
@@ -397,16 +398,15 @@ func encrypt(o *engine.Outcome, op *engine.Op, f *engine.Fault, store map[int64]
 		// then only approximate, the obligations stay the same
 		o.Probe("ciphertext_layout_differs_from_eph_nonce_ct_tag")
 	}
-	store[op.N[0]] = &stored{orig: append([]byte(nil), ct...), ct: ct, plain: plain, client: client, sigType: op.Shape.Sig}
+	store[op.N[0]] = &stored{orig: append([]byte(nil), ct...), ct: ct, plain: plain, client: client, sigType: op.Shape.Sig, cookie: append([]byte(nil), cookie[:]...)}
 	o.FP.Step("encrypt", op.N[0], ct)
 }
 
-func decrypt(o *engine.Outcome, ct []byte, priv any) (got []byte, derr error, gotVal bool, unparseable bool, panicked bool) {
+func decrypt(o *engine.Outcome, ct []byte, priv any, cookie []byte) (got []byte, derr error, gotVal bool, unparseable bool, panicked bool) {
 	e, ok := wrap(ct)
 	if !ok {
 		return nil, nil, false, true, false
 	}
-	cookie := make([]byte, 32)
 	var v *lease_set2.LeaseSet2
 	panicked = o.Guard("DecryptInnerData", func() { v, derr = e.DecryptInnerData(cookie, priv) })
 	if panicked {
@@ -421,7 +421,7 @@ func decrypt(o *engine.Outcome, ct []byte, priv any) (got []byte, derr error, go
 
 func fetch(o *engine.Outcome, idx int, st *stored, client int, form int) {
 	_, priv := clientKeys(client)
-	got, derr, gotVal, unparseable, panicked := decrypt(o, st.ct, privForm(priv, form))
+	got, derr, gotVal, unparseable, panicked := decrypt(o, st.ct, privForm(priv, form), st.cookie)
 	if panicked {
 		return
 	}
@@ -467,7 +467,7 @@ func sweep(o *engine.Outcome, idx int, st *stored, m byte) {
 		mask := byte(1) << (uint(pos+int(m)) % 8)
 		ct := append([]byte(nil), st.ct...)
 		ct[pos] ^= mask
-		_, derr, gotVal, unparseable, panicked := decrypt(o, ct, priv)
+		_, derr, gotVal, unparseable, panicked := decrypt(o, ct, priv, st.cookie)
 		if panicked || unparseable {
 			continue
 		}
